@@ -59,6 +59,23 @@ Proof.
 Qed.
 Print Assumptions C18_restrict_all_nodes.
 
+(* options of restrict (remove_elements passes none): skip_subdomains = True -> the restricted mesh has NO subdomains and its
+   boundaries are remapped as without the option; skip_boundaries = True -> no boundaries, subdomains remapped; both -> neither;
+   a kind that is absent stays absent (the value handed over for a skipped kind is None, never the old dictionary) *)
+Theorem C18_restrict_options :
+  forall (A B : Type) (skip_boundaries skip_subdomains has_b has_s : bool) (new_b : A) (new_s : B),
+    let bnd := restrict_option (gen_restrict_keeps_boundaries skip_boundaries skip_subdomains) has_b new_b in
+    let sub := restrict_option (gen_restrict_keeps_subdomains skip_boundaries skip_subdomains) has_s new_s in
+    (skip_boundaries = true -> bnd = None) /\ (skip_subdomains = true -> sub = None) /\
+    (skip_boundaries = false -> has_b = true -> bnd = Some new_b) /\
+    (skip_subdomains = false -> has_s = true -> sub = Some new_s) /\
+    (has_b = false -> bnd = None) /\ (has_s = false -> sub = None).
+Proof.
+  intros A B sb ss hb hs nb ns. destruct (gen_restrict_guards sb ss) as [-> ->]. unfold restrict_option.
+  destruct sb, ss, hb, hs; simpl; repeat split; intros; try reflexivity; try discriminate.
+Qed.
+Print Assumptions C18_restrict_options.
+
 (* restrict_subdomains: for every duplicate-free cell list `elements` (ANY order) and every tag, the new tag holds
    exactly the positions i in `elements` of the kept cells that were tagged — new cell i IS old cell elements[i] *)
 Theorem C18_restrict_subdomains :
